@@ -41,6 +41,11 @@ def standard_template():
     r = a.one({"op": "Register", "obj": F.obj_spec("SecretData", "salt"),
                "attrs": [["Cryptographic Usage Mask", F.ALL_MASK]]})
     idx["secret2"] = r["payload"]["uid"]
+    # an object under a policy with a groups section (see policies()): access depends on the
+    # requester's group list, not only on the user name
+    r = b.one(F.register_item("SymmetricKey", label="team", extra_attrs=[["Operation Policy Name", "team"], ["Name", "n-team"]]))
+    assert r["status"] == "SUCCESS", r
+    idx["team"] = r["payload"]["uid"]
     s.stop()
     keep = s.dir
     atexit.register(shutil.rmtree, keep, True)
@@ -63,6 +68,18 @@ def template_requests():
     return reqs
 
 
+def policies():
+    """Built-in policies plus 'team': no preset section; group 'admins' may do everything to every
+    object type, group 'staff' may only locate."""
+    from kmip.core import enums
+    p = H.builtin_policies()
+    ots = [H.OT[t] for t in H.OBJECT_TYPES]
+    p["team"] = {"groups": {
+        "admins": {t: {o: enums.Policy.ALLOW_ALL for o in enums.Operation} for t in ots},
+        "staff": {t: {enums.Operation.LOCATE: enums.Policy.ALLOW_ALL} for t in ots}}}
+    return p
+
+
 def fresh_server():
     db, idx = standard_template()
-    return H.Server(template=db), idx
+    return H.Server(policies=policies(), template=db), idx
